@@ -123,13 +123,14 @@ func (m *RuleManager) loadRules() error {
 	if err != nil {
 		return err
 	}
-	for _, s := range toSave {
-		if err = m.storage.SaveRule(s.StoreKey(), s); err != nil {
+	// Delete first: a key to be restored by toSave may be one of the duplicated keys in toDelete.
+	for _, d := range toDelete {
+		if err = m.storage.DeleteRule(d); err != nil {
 			return err
 		}
 	}
-	for _, d := range toDelete {
-		if err = m.storage.DeleteRule(d); err != nil {
+	for _, s := range toSave {
+		if err = m.storage.SaveRule(s.StoreKey(), s); err != nil {
 			return err
 		}
 	}
